@@ -923,6 +923,21 @@ fn main() {
                     if bad.is_empty() { "ok".into() } else { bad.join("; ") }
                 }
             }
+            "bigbatch" => {
+                // bigbatch <ks> <n>: one write batch of n items (keys "b" + 8-digit number, 1-byte values)
+                let Some(k) = w.ks.get(a[0]) else { println!("R {} bigbatch => err:NoKs", ln + 1); continue };
+                let k = k.inner().clone();
+                let n: usize = a[1].parse().expect("n");
+                let mut b = w.db.as_ref().expect("db").inner().batch();
+                for i in 0..n {
+                    b.insert(&k, format!("b{i:08}"), [(i % 251) as u8]);
+                }
+                res(&b.commit())
+            }
+            "count" => match w.ks.get(a[0]) {
+                Some(k) => match k.inner().len() { Ok(n) => format!("n={n}"), Err(e) => format!("err:{}", errname(&e)) },
+                None => "err:NoKs".into(),
+            },
             "workers_pausable" => {
                 fjall::verif::set_workers_pausable(a[0] == "1");
                 "ok".into()
